@@ -37,7 +37,7 @@ class BudgetExceeded(BaseException):
 
 class InProcessTransport(BaseTransport, scheme="inprocess"):
     def __init__(self, server: UDSServer, budget: int | None = None, dropouts: set[int] | None = None,
-                 drop_filter: Any = None) -> None:
+                 drop_filter: Any = None, losses: set[int] | None = None) -> None:
         super().__init__(TargetURI(TARGET))
         self.server = server
         self.st = UDSServerTransport(server, TargetURI(TARGET))
@@ -50,6 +50,10 @@ class InProcessTransport(BaseTransport, scheme="inprocess"):
         # power-on state (S3 timeout / brown-out).  Logged as a pseudo entry (session, b"", None, 1).
         self.dropouts = dropouts or set()
         self.drop_filter = drop_filter
+        # network-side perturbation: the reply to the n-th accepted request is produced by the ECU but never delivered
+        # (log indices of such entries are kept in self.lost)
+        self.losses = losses or set()
+        self.lost: set[int] = set()
         self._n_filtered = 0
         self.n_dropouts = 0
 
@@ -74,10 +78,15 @@ class InProcessTransport(BaseTransport, scheme="inprocess"):
         reply, _ = await self.st.handle_request(data)
         after = self.server.state.session
         self.log.append((before, data, reply, after))
-        if reply is not None:
-            self.queue.append(reply)
-        if self.dropouts and self.drop_filter is not None and self.drop_filter(data):
+        accepted = bool(self.dropouts or self.losses) and self.drop_filter is not None and self.drop_filter(data)
+        if accepted:
             self._n_filtered += 1
+        if reply is not None:
+            if accepted and self._n_filtered in self.losses:
+                self.lost.add(len(self.log) - 1)
+            else:
+                self.queue.append(reply)
+        if accepted:
             if self._n_filtered in self.dropouts:
                 self.server.state.reset()
                 self.n_dropouts += 1
@@ -219,6 +228,31 @@ async def run_scanner(scanner: Any, transport: InProcessTransport, full: bool) -
         out["error"] = e
     except Exception as e:
         out["error"] = e
+    return out
+
+
+def render_ranges(rng: Any, values: list[int]) -> list[str]:
+    """a set of ints as a user would write it in gallia's range grammar: single ids and a-b ranges, decimal or hex,
+    shuffled and split over several comma-joined arguments (each returned string is one argument without blanks)"""
+    vs = sorted(set(values))
+    items: list[str] = []
+    i = 0
+    while i < len(vs):
+        j = i
+        while j + 1 < len(vs) and vs[j + 1] == vs[j] + 1:
+            j += 1
+        f = hex if rng.random() < 0.6 else str
+        if j > i and rng.random() < 0.8:
+            items.append(f"{f(vs[i])}-{f(vs[j])}")
+        else:
+            items.extend(f(x) for x in vs[i : j + 1])
+        i = j + 1
+    rng.shuffle(items)
+    out: list[str] = []
+    while items:
+        k = rng.randint(1, len(items))
+        out.append(",".join(items[:k]))
+        items = items[k:]
     return out
 
 
